@@ -61,8 +61,33 @@ def run(rep, idx, tier):
                 rets[0].func.id in ("list", "tuple", "copy", "deepcopy", "dict") or \
                 (len(rets) == 1 and isinstance(rets[0], (ast.List, ast.ListComp, ast.Tuple))):
             wrong = "the getter returns a copy: in-place edits of the initial contents through the property are silently lost"
+        setters = [f for f in sram.methods.get("init", []) if f.is_setter]
+        if wrong is None and not chain_ok and len(rets) == 1 and isinstance(rets[0], ast.Attribute) and isinstance(rets[0].value, ast.Name) and \
+                rets[0].value.id == "self":
+            # a cached reference: right only while nobody replaces the object it was taken from
+            cache = rets[0].attr
+            rebound = any(isinstance(t, ast.Attribute) and t.attr == cache and isinstance(t.value, ast.Name) and t.value.id == "self"
+                          for st_ in setters for n in ast.walk(st_.node) if isinstance(n, ast.Assign) for t in n.targets)
+            replaces = any(isinstance(t, ast.Attribute) and t.attr == "init" and ast.unparse(t.value).startswith("self._")
+                           for st_ in setters for n in ast.walk(st_.node) if isinstance(n, ast.Assign) for t in n.targets)
+            if replaces and not rebound:
+                wrong = (f"the getter returns `self.{cache}`, a reference taken once in the constructor, while the setter assigns a new image to the "
+                         "memory (`MemoryData.init = ...` builds a new object): after `sram.init = image` the getter still hands out the old "
+                         "object, and edits made through it never reach the memory")
         rep.form(chain_ok, "C15.5", g.site, "`init` returns the memory's own initial-contents object",
                  f"returns {ast.unparse(rets[0])[:60] if rets else None}", wrong=wrong)
+        # the setter replaces the whole image: what the new image does not mention is zero again, not what it was before
+        for st_ in setters:
+            par = [p_ for p_ in st_.params if p_ != "self"]
+            stores = [n for n in ast.walk(st_.node) if isinstance(n, (ast.Assign, ast.AugAssign))]
+            whole = [n for n in stores if isinstance(n, ast.Assign) and len(n.targets) == 1 and isinstance(n.targets[0], ast.Attribute) and
+                     n.targets[0].attr == "init" and ast.unparse(n.targets[0].value).startswith("self._")]
+            partial = [n for n in stores if any(isinstance(t, ast.Subscript) and isinstance(t.value, ast.Attribute) and t.value.attr == "init"
+                                               for t in (n.targets if isinstance(n, ast.Assign) else [n.target]))]
+            rep.form(len(whole) == 1 and not partial, "C15.5", st_.site, "assigning `init` replaces the whole initial image",
+                     f"setter stores: {[ast.unparse(n)[:60] for n in stores]}",
+                     wrong=("the setter writes the new values *into* the existing image (a slice / element store): rows the new image does not "
+                            "cover keep their old contents instead of reading as zero") if partial else None)
     _glue.param_refusals(rep, "C15.4", idx, only=["WishboneSRAM.__init__"])
     c = get_ctx(idx, "WishboneSRAM.elaborate")
     ctor = get_ctor(idx, "WishboneSRAM")
